@@ -489,6 +489,65 @@ func (c *Ctx) c03WriterCensus(mint, quoteOp *ssa.Function, st map[string]string)
 			// quote was issued - a different history than the one recorded as the known watcher race
 			inLoop := o.Loops.InnermostContaining(s.ci.Block()) != nil
 			R.Check("R5", fk, "background write is not repeated", pos, !inLoop, "the invoice watcher writes the state at most once per notification, not in a retry loop", "the write sits in a loop")
+			// what the watcher acts on is a settled invoice: the write sits behind Settled == true of an invoice it
+			// received (an expiry, a cancelled context or a closed subscription hands it a zero invoice)
+			settled := &Cond{Name: "the received invoice is settled", Match: func(f *Fact, o2 *Origins) bool {
+				return f.Kind == "bool" && f.Pos && isField(f.A, "Settled")
+			}}
+			ok2, why2 := c.RequireAt(s.ci, settled)
+			if !ok2 {
+				// the waiting moved into a helper that is new on this tree: the write sits behind its success, every
+				// update the helper passes on (channel send) is behind "settled" (or carries an error), and the helper
+				// never answers a nil error out of an unset local (a way out of its select that received nothing)
+				var helper *ssa.Function
+				waited := &Cond{Name: "the helper that waits for the update succeeded", Match: func(f *Fact, o2 *Origins) bool {
+					if f.Kind != "errnil" || !f.Pos || f.A == nil || f.A.Call == nil {
+						return false
+					}
+					if h := f.A.Call.Common().StaticCallee(); h != nil && c.P.IsNewFunc(h) {
+						helper = h
+						return true
+					}
+					return false
+				}}
+				if okH, _ := c.RequireAt(s.ci, waited); okH && helper != nil {
+					okAll, whyH := true, ""
+					settledOrErr := &Cond{Name: "settled, or an error is passed on", Match: func(f *Fact, o2 *Origins) bool {
+						return (f.Kind == "bool" && f.Pos && isField(f.A, "Settled")) || (f.Kind == "errnil" && !f.Pos)
+					}}
+					nSend := 0
+					for _, g := range WithClosures(helper) {
+						og := c.P.OriginsOf(g)
+						for _, b := range g.Blocks {
+							for _, in := range b.Instrs {
+								if snd, isSend := in.(*ssa.Send); isSend {
+									nSend++
+									if okS, w := og.Requires(snd, settledOrErr); !okS {
+										okAll, whyH = false, "update sent at "+c.P.InstrPos(snd)+" without a test of Settled: "+w
+									}
+								}
+							}
+						}
+					}
+					oh := c.P.OriginsOf(helper)
+					for _, r := range Returns(helper) {
+						if len(r.Results) < 2 {
+							continue
+						}
+						for _, a := range oh.Of(r.Results[len(r.Results)-1]).Alts() {
+							if a.K == "zero" {
+								okAll, whyH = false, "the helper can return the nil error of an unset local at "+c.P.InstrPos(r)+" (nothing was received)"
+							}
+						}
+					}
+					if okAll && nSend > 0 {
+						ok2, why2 = true, ""
+					} else if whyH != "" {
+						why2 = whyH
+					}
+				}
+			}
+			R.Check("R5", fk, construct+" <= received invoice settled", pos, ok2, "the invoice watcher marks the quote PAID only for an invoice update that says settled", why2)
 		default:
 			// internal settlement: helper that also marks a melt quote PAID, reachable from the melt op only
 			writesMelt := false
